@@ -260,6 +260,89 @@ theorem add_contested (dist : Nat → Nat) (t : Table) (n c : Nat) (h : (add dis
       · rename_i h1 h2
         exact ⟨h, h1, by omega⟩
 
+/-! ### what the operations do to the order (most recently active first) -/
+
+/-- `add` of a node that is an entry, or for which there is room, makes it the first
+    (most recently active) entry of its bucket -/
+theorem add_moves_front (dist : Nat → Nat) (t : Table) (n : Nat) (hs : n ≠ t.self)
+    (h : n ∈ (t.buckets (dist n)).entries ∨ (t.buckets (dist n)).entries.length < bucketSize) :
+    (((add dist t n).1).buckets (dist n)).entries.head? = some n := by
+  unfold add
+  rw [if_neg hs]
+  simp only [Table.put, if_true]
+  unfold addB
+  split
+  · unfold bump; rename_i hm; rw [if_pos hm]; rfl
+  · rename_i hm
+    rcases h with h | h
+    · exact absurd h hm
+    · rw [if_pos h]; rfl
+
+/-- `add` on a full bucket parks the node as the LAST replacement -/
+theorem add_parks_last (dist : Nat → Nat) (t : Table) (n : Nat) (hs : n ≠ t.self)
+    (h1 : n ∉ (t.buckets (dist n)).entries) (h2 : ¬ (t.buckets (dist n)).entries.length < bucketSize) :
+    (((add dist t n).1).buckets (dist n)).replacements.getLast? = some n ∧
+    (((add dist t n).1).buckets (dist n)).entries = (t.buckets (dist n)).entries := by
+  unfold add
+  rw [if_neg hs]
+  simp only [Table.put, if_true]
+  unfold addB
+  rw [if_neg h1, if_neg h2]
+  refine ⟨?_, rfl⟩
+  simp only
+  split
+  · rename_i hl
+    -- the list has ≥ 2 elements, its tail keeps the last one
+    generalize hf : List.filter (fun x => decide (x ≠ n)) (t.buckets (dist n)).replacements = f at hl ⊢
+    cases f with
+    | nil => simp [bucketSize] at hl
+    | cons a r => simp
+  · simp
+
+/-- `stuff` appends a new node at the END of its bucket (least recently active) -/
+theorem stuff1_appends (dist : Nat → Nat) (t : Table) (n : Nat) (hs : n ≠ t.self)
+    (h1 : n ∉ (t.buckets (dist n)).entries) (h2 : (t.buckets (dist n)).entries.length < bucketSize) :
+    ((stuff1 dist t n).buckets (dist n)).entries = (t.buckets (dist n)).entries ++ [n] := by
+  unfold stuff1
+  rw [if_neg hs]
+  simp only [Table.put, if_true]
+  unfold stuffB
+  rw [if_neg h1, if_pos h2]
+
+/-- after `deleteReplace n` the node is gone from its bucket — entries and replacements —
+    whatever the table looked like before (even with the duplicates of F20) -/
+theorem deleteReplace_removes (dist : Nat → Nat) (t : Table) (n : Nat) :
+    n ∉ ((deleteReplace dist t n).buckets (dist n)).entries ∧
+    n ∉ ((deleteReplace dist t n).buckets (dist n)).replacements := by
+  unfold deleteReplace
+  simp only [Table.put, if_true]
+  unfold deleteReplaceB
+  simp only
+  split
+  · rename_i last hl
+    have hlast : last ≠ n := (mem_filter_ne.mp (List.mem_of_getLast? hl)).2
+    split
+    · refine ⟨?_, ?_⟩
+      · simp only [List.mem_cons, not_or]
+        exact ⟨fun e => hlast e.symm, fun hm => (mem_filter_ne.mp hm).2 rfl⟩
+      · intro hm; exact (mem_filter_ne.mp (mem_of_mem_dropLast' hm)).2 rfl
+    · exact ⟨fun hm => (mem_filter_ne.mp hm).2 rfl, fun hm => (mem_filter_ne.mp hm).2 rfl⟩
+  · exact ⟨fun hm => (mem_filter_ne.mp hm).2 rfl, fun hm => (mem_filter_ne.mp hm).2 rfl⟩
+
+/-- `delete n` removes the node from the entries when they are distinct; with the duplicates of
+    F20 one copy survives (`delete` stops at the first match) -/
+theorem delete_removes (dist : Nat → Nat) (t : Table) (n : Nat) (hd : (t.buckets (dist n)).entries.Nodup) :
+    n ∉ ((delete dist t n).buckets (dist n)).entries := by
+  unfold delete
+  simp only [Table.put, if_true]
+  unfold deleteB
+  split
+  · simp only; rw [hd.mem_erase_iff]; simp
+  · rename_i h; simpa [delRepl] using h
+
+theorem delete_leaves_duplicate :
+    17 ∈ ((delete (fun _ => 0) (run (fun _ => 0) (empty 0) f20ops) 17).buckets 0).entries := by decide
+
 /-! ### the hypotheses are satisfiable on non-trivial values (tests, not proofs of the property) -/
 
 example : SafeRun (fun n => n % 2) (empty 0) [.add 1, .add 3, .stuff [5, 7, 1], .delete 3, .deleteReplace 1, .bump 5] := by
